@@ -264,6 +264,22 @@ Proof. intros [] c tail H; inversion H; subst; reflexivity. Qed.
 
 Close Scope N_scope.
 
+(* a hash comment: '#' and everything up to the end of the line *)
+Definition hash_ok (v : bytes) : Prop :=
+  exists r, v = 35%N :: r /\ forallb (fun c => negb (N.eqb c 10%N)) r = true.
+
+Lemma scan_rules_hash : forall v tail,
+  hash_ok v -> (tail = [] \/ exists t, tail = 10%N :: t) ->
+  scan_rules (v ++ tail) = Some (THashComment, length v).
+Proof.
+  intros v tail (r & -> & Hr) Ht.
+  assert (Hstop : match tail with [] => True | x :: _ => negb (N.eqb x 10%N) = false end).
+  { destruct Ht as [->|(t & ->)]; [exact I|reflexivity]. }
+  destruct (take_drop_stop _ r tail Hr Hstop) as (T & _).
+  unfold scan_rules. cbn [app]. rewrite !scan_single_cons. cbn [N.eqb Pos.eqb orelse].
+  rewrite scan_hash_cons. cbn [N.eqb Pos.eqb]. rewrite T. reflexivity.
+Qed.
+
 Definition tok_ok (k : tkind) (v : bytes) : Prop :=
   match k with
   | TString => exact_string v
@@ -271,14 +287,15 @@ Definition tok_ok (k : tkind) (v : bytes) : Prop :=
   | TTag => tag_ok v = true
   | TNumber => num_ok v
   | TMultiline => ml_ok v
-  | THashComment | TBracketComment => False
+  | THashComment => hash_ok v
+  | TBracketComment => False
   | _ => exists c, punct_of k = Some c /\ v = [c]
   end.
 
 Definition after_ok (k : tkind) (tail : bytes) : Prop :=
   match k with
   | TIdentifier | TTag | TNumber => tail_delim tail
-  | TMultiline => tail = [] \/ exists t, tail = 10%N :: t
+  | TMultiline | THashComment => tail = [] \/ exists t, tail = 10%N :: t
   | _ => True
   end.
 
@@ -290,6 +307,9 @@ Proof.
   destruct k; cbn [tok_ok after_ok] in *; try contradiction;
     try (destruct Hk as (c & Hp & ->); split; [apply scan_rules_punct; exact Hp|];
          exists c, []; split; [reflexivity|]; inversion Hp; subst; reflexivity).
+  - (* hash comment *)
+    split; [apply scan_rules_hash; assumption|].
+    destruct Hk as (r & -> & _). exists 35%N, r. split; reflexivity.
   - (* multiline *)
     split; [apply scan_rules_ml; assumption|].
     destruct (scan_multiline_some _ _ (Hk [] (or_introl eq_refl))) as (t & Hv). rewrite app_nil_r in Hv. subst v.
